@@ -25,7 +25,7 @@ func genControlCase(e *Env) *Case {
 func runC09(e *Env) error {
 	r := e.Rep
 	r.Rule = "random programs nesting if/elseif/else, for/else (lists, maps, strings, ranges, non-iterables), set, include, apply, verbatim to depth 3 over a context with every value kind; " +
-		"plus every list length 0..6 × loop-metadata probe (implementation-only); every pair of typed Go sequence spellings nested at every pair of lengths; loop nests over typed slices, arrays, lists of lists, records and typed maps against the model-checked []interface{} render; whitespace-bearing string literals in every position of for/if/set/do/include tags; non-trivial = renders without error and contains a for or if; distinct by main template source"
+		"plus every list length 0..6 × loop-metadata probe (implementation-only); every pair of typed Go sequence spellings nested at every pair of lengths; loop nests over typed slices, arrays, lists of lists, records and typed maps against the model-checked []interface{} render; whitespace-bearing string literals in every position of for/if/set/do/include tags; loop bodies that (re)assign a variable at every place of the body (first node, last node, in a branch, in a nested loop …) × every value kind × every sequence kind, changed and read in the same body and read after the loop, with and without an assignment in front of the loop (model-checked; float literals, multi-byte strings and typed Go sequences against a direct computation), and the random programs with such resets put into their loops; non-trivial = renders without error and contains a for or if; distinct by main template source"
 	// regression corpus: the pinned-tree defects of this property
 	corpus := []struct{ src, want string }{
 		{"{% if 1 - 1 %}T{% else %}F{% endif %}", "F"},
@@ -146,6 +146,10 @@ func runC09(e *Env) error {
 	}
 	// whitespace-bearing string literals inside the tags: c09_ws.go
 	if err := runWhitespaceLiterals(e); err != nil {
+		return err
+	}
+	// a statement of a loop body runs once per element, where it stands (resets at the top of the body …): c09_body.go
+	if err := c09RunBodyResets(e); err != nil {
 		return err
 	}
 	// differential
